@@ -187,7 +187,58 @@ func eachStall(emit func(xferCase)) {
 	}
 }
 
+// eachExactSize: one envelope padded to exactly 65533..65535 octets on the wire (the largest message
+// the length prefix can frame), first / middle / last envelope, every sender, with and without TSIG.
+func eachExactSize(emit func(xferCase)) {
+	for _, target := range []int{65535, 65534, 65533} {
+		for _, ts := range []*tsigSpec{nil, enumKey} {
+			for _, sender := range []string{"harness", "library", "libout"} {
+				for at := 0; at <= 2; at++ {
+					c := xferCase{Mode: "axfr", Zone: "example.", QID: 4660, Serial: 7, Sender: sender, Tsig: ts}
+					c.Recs = bodyRecs(2)
+					c.Recs = append(c.Recs[:at:at], append([]recSpec{{T: "FILL", Owner: "fill", V: 1}}, c.Recs[at:]...)...)
+					c.Sizes = [][]int{{5}, {2, 2, 1}, {1, 1, 1, 1, 1}}[at]
+					if !sizeFiller(&c, target) {
+						panic("harness: cannot size the filler")
+					}
+					emit(c)
+				}
+			}
+		}
+		c := xferCase{Mode: "ixfr", Zone: "example.", QID: 4660, QSerial: 5, Serial: 7, Sender: "harness", Tsig: enumKey,
+			Diffs: []diffSpec{{From: 5, To: 7, Del: bodyRecs(1), Add: []recSpec{{T: "FILL", Owner: "fill", V: 1}}}}, Sizes: []int{2, 1, 2, 1}}
+		if sizeFiller(&c, target) {
+			emit(c)
+		}
+	}
+}
+
+// eachSameConn: two or three requests (transfers and plain queries) over one connection to the
+// sending server, read by the library and by the reference verifier.
+func eachSameConn(emit func(xferCase)) {
+	seqs := [][]string{{"xfr", "xfr"}, {"xfr", "query"}, {"query", "xfr"}, {"xfr", "xfr", "xfr"}, {"xfr", "query", "xfr"}, {"query", "query"}}
+	for _, sh := range shapes(4) {
+		n := len(sh.flat())
+		for _, sizes := range someSizes(n) {
+			for _, ts := range []*tsigSpec{nil, enumKey} {
+				for _, sender := range []string{"library", "libout"} {
+					for _, seq := range seqs {
+						c := sh
+						c.Sizes = sizes
+						c.Tsig = ts
+						c.Sender = sender
+						c.Rounds = seq
+						emit(c)
+					}
+				}
+			}
+		}
+	}
+}
+
 func init() {
+	pbt.RegisterEnum(pbt.Enum[xferCase]{Name: "exact-size", Each: eachExactSize, Check: checkXfer})
+	pbt.RegisterEnum(pbt.Enum[xferCase]{Name: "same-connection", Each: eachSameConn, Check: checkXfer})
 	pbt.RegisterEnum(pbt.Enum[xferCase]{Name: "stall", Each: eachStall, Check: checkXfer})
 	pbt.RegisterEnum(pbt.Enum[xferCase]{Name: "all-partitions", Exhaustive: true, Each: eachPartition, Check: checkXfer})
 	pbt.RegisterEnum(pbt.Enum[xferCase]{Name: "cut-every-octet", Exhaustive: true, Each: eachCut, Check: checkXfer})
